@@ -119,6 +119,8 @@ class Summaries:
             E[vp + "extend_from_slice"] = self.vec_extend
             E[vp + "resize"] = self.vec_resize
             E[vp + "set_len"] = self.vec_set_len
+            E[vp + "truncate"] = self.vec_truncate
+            E[vp + "clear"] = self.vec_clear
             E[vp + "as_ptr"] = self.vec_as_ptr
             E[vp + "as_mut_ptr"] = self.vec_as_ptr
             E[vp + "as_slice"] = self.vec_deref
@@ -689,6 +691,33 @@ class Summaries:
             self._vec_grow(st, K, n)
             out.append((st, None))
         return out
+
+    def vec_truncate(self, st, fr, inst, t, callee, args):
+        """Vec::truncate(n): len = min(len, n); buffer, capacity and initialised prefix unchanged"""
+        K = self.vec_key(st, args[0])
+        n = args[1]
+        if K is None or not is_int(n):
+            self.vec_untracked(st, inst, t, "truncate")
+            return [(st, None)]
+        ln = st.env[K + self.VL]
+        out = []
+        s1 = st.copy()
+        if s1.add_fact(n, ln, -1):           # n < len: shortened
+            s1.ghost.pop(("pristine",), None)
+            s1.env[K + self.VL] = n
+            out.append((s1, None))
+        if st.add_fact(ln, n, 0):            # len <= n: no effect
+            out.append((st, None))
+        return out
+
+    def vec_clear(self, st, fr, inst, t, callee, args):
+        K = self.vec_key(st, args[0])
+        if K is None:
+            self.vec_untracked(st, inst, t, "clear")
+            return [(st, None)]
+        st.ghost.pop(("pristine",), None)
+        st.env[K + self.VL] = const_int(0)
+        return [(st, None)]
 
     def vec_pop(self, st, fr, inst, t, callee, args):
         from .engine import Fields
